@@ -42,8 +42,9 @@ type kvCfg struct {
 }
 
 // keys are bytes, not text: "\xff\x01" is not valid UTF-8 (EVM storage slots are 32 binary bytes)
-var kvKeys = []string{"a", "ab", "abc", "b", "ba", "", "c", "\xff\x01", "\xff"}
-var kvPrefixes = []string{"", "a", "ab", "b", "c", "zz", "\xff"}
+// "cafe" and "00ff" are readable keys that are also valid hex strings (the journal hex-encodes its keys)
+var kvKeys = []string{"a", "ab", "abc", "b", "ba", "", "c", "\xff\x01", "\xff", "cafe", "00ff"}
+var kvPrefixes = []string{"", "a", "ab", "b", "c", "zz", "\xff", "ca", "0"}
 
 func kvAddr(i int) *types.Address {
 	return types.NewAddress([]byte(fmt.Sprintf("kv-account-%02d........", i))[:20])
@@ -91,6 +92,7 @@ type kvRun struct {
 	addOver map[string][]uint64
 	minH    uint64
 	readsAt map[uint64]map[string]string // (C12) height -> what the store read right after that commit
+	queue   []kvOp                       // generator only: rest of a pattern being emitted
 }
 
 func (kr *kvRun) violation(sig, detail string) { kr.viols = append(kr.viols, poolViol{sig, detail}) }
@@ -378,6 +380,14 @@ func (kr *kvRun) apply(op kvOp) {
 		}
 		accts, root := kr.sl.FlushDirtyData()
 		kr.h++
+		if kr.prop == "C13" && kr.cfg.Cache[0] == 0 && kr.rng.Intn(2) == 0 {
+			// the executor starts the next block while the flushed one is still being committed: reads between
+			// FlushDirtyData and Commit are served by the account cache alone and must already see the block
+			// (only with the production cache sizes: a cache of 1-3 entries, the device this workload uses to
+			// provoke evictions, legitimately loses the flushed block before its commit)
+			kr.check(true, fmt.Sprintf("between flush and commit of block %d", kr.h))
+			kr.stats["obs_read_rounds_between_flush_and_commit"]++
+		}
 		if err := kr.sl.Commit(kr.h, accts, root); err != nil {
 			kr.violation("commit:error", err.Error())
 		}
@@ -553,9 +563,39 @@ func dumpStoreStr(s storage.Storage) string {
 }
 
 func (kr *kvRun) gen(r *rand.Rand, ctr *int, useAdd bool) kvOp {
+	if len(kr.queue) > 0 {
+		op := kr.queue[0]
+		kr.queue = kr.queue[1:]
+		return op
+	}
 	x := r.Intn(100)
 	a := r.Intn(3)
 	k := kvKeys[r.Intn(len(kvKeys))]
+	// now and then a whole pattern on one slot, the kind of sequence a contract call inside a failing
+	// transaction produces (the first op is returned, the rest queued; a commit in front makes the
+	// snapshot index known)
+	if r.Intn(100) < 4 {
+		v := func() string { *ctr++; return fmt.Sprintf("v%d", *ctr) }
+		var pat []kvOp
+		switch r.Intn(5) {
+		case 0: // committed value, deleted, rewritten inside a snapshot, reverted: the deletion must stand
+			pat = []kvOp{{Op: "set", A: a, K: k, V: v()}, {Op: "commit"}, {Op: "set", A: a, K: k, V: "<nil>"}, {Op: "snap"}, {Op: "set", A: a, K: k, V: v()}, {Op: "revert", N: 0}, {Op: "endtx"}, {Op: "commit"}}
+		case 1: // committed empty value, overwritten in the next block
+			pat = []kvOp{{Op: "set", A: a, K: k, V: v()}, {Op: "commit"}, {Op: "set", A: a, K: k, V: ""}, {Op: "commit"}, {Op: "set", A: a, K: k, V: v()}, {Op: "commit"}}
+		case 2: // balance and nonce written, then a code write that is reverted
+			*ctr += 2
+			pat = []kvOp{{Op: "commit"}, {Op: "bal", A: a, N: int64(*ctr) * 7}, {Op: "nonce", A: a, N: int64(*ctr)}, {Op: "snap"}, {Op: "code", A: a, V: "code-" + v()}, {Op: "revert", N: 0}, {Op: "endtx"}, {Op: "commit"}}
+		case 3: // committed value deleted in one block and written back in the next
+			w := v()
+			pat = []kvOp{{Op: "set", A: a, K: k, V: w}, {Op: "commit"}, {Op: "set", A: a, K: k, V: "<nil>"}, {Op: "commit"}, {Op: "set", A: a, K: k, V: w}, {Op: "commit", Note: "then-reopen"}}
+		default: // code written, then only balance / nonce, then the same code again
+			c := "code-" + v()
+			*ctr++
+			pat = []kvOp{{Op: "code", A: a, V: c}, {Op: "commit"}, {Op: "bal", A: a, N: int64(*ctr) * 7}, {Op: "commit", Note: "then-reopen"}, {Op: "bal", A: a, N: int64(*ctr)*7 + 1}, {Op: "commit"}, {Op: "code", A: a, V: c}, {Op: "commit"}}
+		}
+		kr.queue = pat[1:]
+		return pat[0]
+	}
 	// locality: multi-step patterns on one slot (delete, snapshot, rewrite, revert ...) are what the journal
 	// and the caches get wrong, uniform choice over 21 slots almost never produces them
 	if kr.hotSet && r.Intn(100) < 45 {
